@@ -25,7 +25,7 @@ def run(chk):
     chk.assume("U Sigma V^H = A for the DenseSVD rule follows from the pairing/bijection obligations by reordering a finite sum (argument outside the solver)")
     chk.assume("Lanczos svd rule: orthonormal factors, non-negative Sigma and U Sigma V^H = projection of A on the selected singular subspace are PROVED (finite-sum algebra, "
                "sympy back end) from the callee contract of lanczos_eigs on the Gram matrix; that this projection is the best rank-k approximation is Eckart-Young (ASSUMED); "
-               "svd(Diagonal) is covered only by a bounded stand-in")
+               "svd(Diagonal) is proved in the index domain (diag_one); its bounded stand-in is kept")
     tasks = [("dense", sh) for sh in ("tall", "wide", "square")] + [("identity", "square")]
     chk.under_contract("cola.linalg.svd.svd.svd[LinearOperator,DenseSVD]")
     chk.under_contract("cola.linalg.svd.svd.svd[Identity,Algorithm]")
@@ -41,7 +41,24 @@ def run(chk):
     for obs in pmap(lambda i: diag_one(("real", "complex")[i]), 2):
         for ob in obs:
             chk.add(ob)
+    chk.add(lanczos_svd_rank())
     bounded(chk)
+
+
+def lanczos_svd_rank():
+    """The Lanczos svd rule is proved above from the callee contract 'the eigenvalues w of the Gram matrix are POSITIVE' (it divides by their square roots).  The Gram
+    matrix of an arbitrary operator is only positive SEMI-definite: obligation  w >= 0  ==>  w > 0  for a returned eigenvalue (false for a rank-deficient operator when
+    every triplet is requested)."""
+    t0 = time.time()
+    w = z3.Real("w_selected")
+    res = alg.prove([w >= 0], w > 0, 2000)
+    ok = res["status"] == "unsat"
+    ob = Ob(key="C16/svd[LinearOperator,Lanczos]/every returned eigenvalue of the Gram matrix is positive (the rule divides by its square root), for every operator and every k <= min(m, n)",
+            fn="cola.linalg.svd.svd.svd", clause="no division by a zero singular value", engine="IDX", status=DISCHARGED if ok else FAILED, backend="z3", secs=time.time() - t0,
+            detail="unsat" if ok else f"{res['status']}: w = 0 (a rank-deficient operator with all min(m, n) triplets requested)")
+    if not ok:
+        ob.witness = dict(engine="SVD-BOUNDED", rule="lanczos-rank")
+    return ob
 
 
 def _labels_goal(goals, ops, allowed, why):
